@@ -226,6 +226,10 @@ func (p *Prompt) MultilineColumnPrint() {
 		}
 
 		fmt.Print(column)
+
+	default:
+		// Without a column, still go down to the last line, like above.
+		fmt.Print(strings.Repeat("\n", p.line.Lines()))
 	}
 }
 
